@@ -548,10 +548,7 @@ func (fr *frame) instr(ins ssa.Instruction, st *State) {
 		et := x.Type().(*types.Pointer).Elem()
 		switch u := et.Underlying().(type) {
 		case *types.Struct:
-			si := c.structInfoOf(et)
-			ref := c.alloc(st, si.size)
-			c.storeStruct(st, si, ref, c.zeroOfSort(Sort(si.name), et))
-			fr.set(x, ref)
+			fr.set(x, c.allocStruct(st, et))
 		case *types.Array:
 			seq, _ := c.sortOf(et)
 			ref := c.alloc(st, 1)
@@ -908,7 +905,7 @@ func (fr *frame) indexAddr(x *ssa.IndexAddr, st *State, pos string) Value {
 		c.oblige(st, "bounds", f.And(f.Le(f.Int(0), i), f.Lt(i, f.SlLen(s))), pos, "index in range")
 		key := memKey(seq)
 		c.declareHeapKey(key, seq)
-		return fr.elemPtr(&LV{key: key, ref: f.SlRef(s), elem: true, idx: f.Add(f.SlOff(s), i), typ: u.Elem()})
+		return fr.elemPtr(&LV{key: key, ref: f.SlRef(s), elem: true, idx: f.Add(f.SlOff(s), i), typ: u.Elem(), sl: s, rel: i})
 	case *types.Pointer:
 		arr := u.Elem().Underlying().(*types.Array)
 		base := fr.operand(x.X, st)
